@@ -241,8 +241,8 @@ def r7(F, rep):
                 g = X.strip(f.nodes[cid])
                 if pol and g["k"] == "DeclRefExpr" and g.get("st") == "local":
                     flag_ids.add(g["d"])
-    sets = [w for w, t in lvalue_writes(f) if X.strip(t)["k"] == "DeclRefExpr" and X.strip(t).get("d") in flag_ids and
-            w["k"] == "BinaryOperator" and C._lit(X.kids(w)[1]) == 1]
+    allw = [w for w, t in lvalue_writes(f) if X.strip(t)["k"] == "DeclRefExpr" and X.strip(t).get("d") in flag_ids and w["k"] == "BinaryOperator"]
+    sets = [w for w in allw if C._lit(X.kids(w)[1]) == 1]
     cond_keys = ""
     for w in sets:
         for a in f.ancestors(w):
@@ -250,8 +250,18 @@ def r7(F, rep):
                 cs = a["c"]
                 cn = cs[1] if len(cs) == 4 else cs[0]
                 cond_keys += " " + X.re_strip(X.key(cn, f))
-    if not sets:
-        raise AnalysisBroken("colvar_grid::parse_params: the flag that triggers re-dimensioning is never set")
+    # the flag may also be computed directly from the comparisons (flag = a != b || ...)
+    for w in allw:
+        if C._lit(X.kids(w)[1]) is None:
+            cond_keys += " " + X.re_strip(X.key(X.kids(w)[1], f))
+    for v in f.walk():
+        if v["k"] == "VarDecl" and v.get("d") in flag_ids and X.kids(v) and C._lit(X.kids(v)[0]) is None:
+            cond_keys += " " + X.re_strip(X.key(X.kids(v)[0], f))
+    if not flag_ids:
+        raise AnalysisBroken("colvar_grid::parse_params: no boolean local guards the re-dimensioning call")
+    if not cond_keys.strip():
+        rep.add("C15-R7", "parse_params|change-test", f.loc(), "the flag that triggers re-dimensioning is never derived from a comparison of old and new parameters", False,
+                detail="a changed grid definition is not applied to the data array", func=f.q)
     for m in sorted(members):
         n += 1
         v = saved.get(m)
